@@ -498,6 +498,14 @@ def _class_of(self, qual) -> Optional[ClassInfo]:
 
 def get_attr(self, base: Term, name: str, st: State, node=None) -> Term:
     op = base.op
+    if op == "ref":
+        o_h = self.obj(st, base)
+        if o_h is not None and o_h.kind == "obj" and o_h.label == "hmac" and name in ("update", "digest", "copy", "hexdigest"):
+            return mk("hmacmeth", base, name)
+    if op == "call" and name in ("digest_size", "block_size") and isinstance(base.args[0], Term) and base.args[0].op == "ext" and not base.args[1]:
+        sizes = {"hashlib.md5": (16, 64), "hashlib.sha1": (20, 64), "hashlib.sha224": (28, 64), "hashlib.sha256": (32, 64), "hashlib.sha384": (48, 128), "hashlib.sha512": (64, 128)}
+        if base.args[0].args[0] in sizes:
+            return C(sizes[base.args[0].args[0]][0 if name == "digest_size" else 1])
     if op == "record":
         for n_, v_ in base.args[1]:
             if n_ == name:
@@ -1164,6 +1172,11 @@ def call(self, fn: Term, args: List[Term], kwargs: Dict[str, Term], st: State, n
         c = self.prog.classes.get(fn.args[0])
         if c is not None:
             return self.instantiate(c, args, kwargs, st, node)
+    if op == "hmacmeth":
+        h_ = getattr(self, "hmac_model", None)
+        if h_ is None:
+            raise Unsupported("method %s of an HMAC object outside a scenario that models HMAC" % fn.args[1])
+        return h_(self, fn.args[0], fn.args[1], list(args), kwargs, st, node)
     if op == "partial":
         return self.call(fn.args[0], list(fn.args[1]) + list(args), {**dict(fn.args[2]), **kwargs}, st, node)
     if op == "opcaller" and len(args) == 1 and not kwargs:
